@@ -57,7 +57,7 @@ class Ctx:
         self.nontrivial = set()
         self.hist = {}
         self.notes = []
-        self.proof = dict(obligations=0, discharged=0, theorems={}, build_ok=None, build_log='', grep_hits=[])
+        self.proof = dict(obligations=0, discharged=0, theorems={}, build_ok=None, build_log='', grep_hits=[], statements=[])
         self.extra = {}
         self.assumptions = []
         self.known = load_known()
@@ -197,6 +197,16 @@ def audit(ctx, theorem_files, extra_grep_files=()):
     names = []
     for f in theorem_files:
         names += [(f, n) for n in theorem_names(f)]
+    # full-strength targets kept as `def ….Statement : Prop` (not proved): listed by name in the evidence
+    stm = []
+    for f in sorted(files):
+        try:
+            src = strip_lean_comments(open(os.path.join(LEAN, f)).read())
+        except FileNotFoundError:
+            continue
+        for m in re.finditer(r'^\s*(?:noncomputable\s+)?def\s+([A-Za-z0-9_.\']*Statement)\b', src, re.M):
+            stm.append(f'{f}: {m.group(1)}')
+    ctx.proof['statements'] = stm
     ctx.proof['obligations'] = len(names)
     if not ok:
         # find which modules still build, so that the surviving theorems are still counted
@@ -302,6 +312,11 @@ def is_known(ctx, key):
     return None
 
 
+def _dedupe_suffix(names):
+    names = sorted(set(names))
+    return [n for n in names if not any(m != n and m.endswith('.' + n) for m in names)]
+
+
 def finish(ctx, proof_ok, level='proof', checker_cmd='', trusted=None, rule=''):
     violations = []
     printed_known = set()
@@ -343,7 +358,7 @@ def finish(ctx, proof_ok, level='proof', checker_cmd='', trusted=None, rule=''):
             # full-strength targets kept as `def …Statement : Prop` next to a proved `…_partial` are NOT counted here:
             # they are listed under open_statements (named gaps, see DESIGN.md / design_notes)
             obligations=max(len(ctx.proof['theorems']), 1), discharged=max(ctx.proof['discharged'], 0) if ctx.proof['theorems'] else 0,
-            open_statements=max(ctx.proof['obligations'] - len(ctx.proof['theorems']), 0) if 'open_statements' not in ctx.extra else ctx.extra['open_statements'],
+            open_statements=_dedupe_suffix(list(ctx.extra.get('open_statements', []) if isinstance(ctx.extra.get('open_statements', []), list) else []) + [x.split(': ', 1)[1] for x in ctx.proof.get('statements', [])]),
             checker_cmd=checker_cmd or f'cd lean && lake build {" ".join(module_of(f) for f in ctx.extra.get("theorem_files", []))} && lake env lean .lake/audit/Audit_{ctx.pid}.lean',
             trusted_base=trusted or [],
             theorems=ctx.proof['theorems'],
